@@ -195,6 +195,38 @@ class Ctx:
         self.log(f'proved {relpath}: {len(names)} obligations in {dt:.1f}s')
         return out
 
+    def prove_with_deps(self, relpath, timeout=600):
+        """Compile relpath after the GenProofs/Properties files it imports
+        (transitively, in dependency order, as computed by coqdep)."""
+        files = [os.path.join(d, f) for d in ('GenProofs', 'Properties')
+                 for f in sorted(os.listdir(os.path.join(COQ, d)))
+                 if f.endswith('.v')]
+        r = subprocess.run(['coqdep'] + COQ_ARGS[:12] + files, cwd=COQ,
+                           capture_output=True, text=True)
+        deps = {}
+        for line in r.stdout.splitlines():
+            if ':' not in line:
+                continue
+            lhs, rhs = line.split(':', 1)
+            tgt = [t for t in lhs.split() if t.endswith('.vo')]
+            if not tgt:
+                continue
+            v = tgt[0][:-1]
+            deps[v] = [d[:-1] for d in rhs.split()
+                       if d.endswith('.vo') and d[:-1] in files]
+        order, seen = [], set()
+
+        def visit(f):
+            if f in seen:
+                return
+            seen.add(f)
+            for d in deps.get(f, []):
+                visit(d)
+            order.append(f)
+        visit(relpath)
+        for f in order:
+            self.prove(f, timeout)
+
     def eval_bools(self, name, preamble, terms, shard=400, timeout=900):
         """Evaluate Gallina terms of type bool with vm_compute."""
         return self.eval_groups(name, preamble, [('', terms)], shard, timeout)
